@@ -18,7 +18,8 @@ RULE = ("(i) port generator alone: 1..450 ranges (singletons, adjacent, overlapp
         "address list on stdin x 3 ports, tcp /31 x 400+ port ranges (3 chunks), arp, icmp; socks over local addresses with a listener as the log; table-driven: every packet command (arp, icmp, udp, tcp, "
         "tcp syn/fin/null/xmas, tcp --flags) on a /30, once normally and once pinned to ONE cpu (taskset: runtime.NumCPU() == 1); every port command once more with the ports "
         "from --ports-file only; socks / elastic / elastic https / docker against local listeners with HTTP_PROXY, HTTPS_PROXY, ALL_PROXY "
-        "and DOCKER_HOST pointing at a decoy")
+        "and DOCKER_HOST pointing at a decoy; a chunked SYN scan of 201 ports whose first probes are answered with malformed "
+        "SYN+ACKs; (v) the chunk loop replayed on the real tcp/udp request generator over a /20../21 x 201..203 port ranges")
 
 CODES = {1: "port generator: error differs from the model", 2: "port generator: port sequence differs from the model",
          3: "port generator: channel not closed",
@@ -227,6 +228,25 @@ def run(ctx):
         if ok:
             rows = ctx.read_jsonl(os.path.join(ctx.work, "cases.jsonl"))
     per_class = {}
+    # the chunk loop replayed on the real tcp / udp request generator: a /20../21 x 201..203 single-port ranges, one
+    # GenerateRequests per chunk on the same generator, each under a context cancelled when the chunk is done
+    if ctx.harness_build("c01"):
+        touched = any("ipGenerator" in n or "ipPortGenerator" in n for n in (getattr(ctx, "source_diff", []) or []))
+        ok, _ = ctx.harness_run("c01", ["-out", "chunkgen.jsonl", "-seed", ctx.seed + 5, "-nports", 0, "-nnested", 0, "-nchain", 0,
+                                        "-nchunkgen", 2 if quick else 12, "-chunkattempts", 12 if touched else 3], timeout=3000)
+        for o in (ctx.read_jsonl(os.path.join(ctx.work, "chunkgen.jsonl")) if ok else []):
+            ctx.count("chunkgen:" + o["class"], ("chunkgen", o["case_seed"]), nontrivial=o["total"] > 0,
+                      sample={"kind": "chunkgen", "net": o["net"], "port_ranges": o["nranges"], "chunks": o["chunks"],
+                              "requests": o["total"], "attempts": o["attempts"], "discrepancies": o["nbad"]})
+            if o["nbad"] or o.get("err"):
+                why = ("tcp/udp request generator, subnet %s x %d single-port ranges in %d chunks (one GenerateRequests per chunk on the same "
+                       "generator, context cancelled after each chunk): %s (%d discrepancies in %d requests, attempt %d)" % (
+                           o["net"], o["nranges"], o["chunks"], (o.get("bad") or [o.get("err")])[0], o["nbad"], o["total"], o["attempts"]))
+                path = ctx.write_replay("chunkgen-%d" % o["case_seed"], {
+                    "property": "C01", "what": why, "input": {"kind": "chunkgen", "case_seed": o["case_seed"], "attempts": 30},
+                    "observed": o, "replay_cmd": "bin/check C01 --replay <this file>"})
+                if not any(f["key"] == "chunkgen" for f in ctx.findings):
+                    ctx.findings.append({"key": "chunkgen", "what": why, "replay": path})
     for o in rows:
         cls = "%s:%s" % (o["kind"], o["class"])
         ctx.count(cls, (o["kind"], o["case_seed"]), nontrivial=nontrivial(o),
@@ -241,7 +261,7 @@ def run(ctx):
                 report(ctx, o, why)
     # end to end: the real engine start functions (chunk loop included) with a wire log
     if rows or not ctx.broken:
-        for idx, o in enumerate(run_e2e(ctx, 37 if quick else 110)):
+        for idx, o in enumerate(run_e2e(ctx, 38 if quick else 110)):
             cls = "e2e:" + o["class"]
             if o.get("skipped"):
                 ctx.skipped.append("e2e %s: %s" % (o["class"], o["skipped"][:200]))
@@ -312,6 +332,11 @@ def replay(ctx, path):
         why = judge_e2e(o)
         print("replay e2e #%d (%s): %s" % (i["index"], o["class"], why or o.get("skipped") or "property holds on this input"))
         return 1 if why else 0
+    if i["kind"] == "chunkgen":
+        ctx.harness_run("c01", ["-out", "one.jsonl", "-replay", "chunkgen:%d:%d" % (i["case_seed"], i.get("attempts", 30))], timeout=900)
+        o = ctx.read_jsonl(os.path.join(ctx.work, "one.jsonl"))[0]
+        print("replay chunk loop on %s x %d port ranges: %s" % (o["net"], o["nranges"], (o.get("bad") or ["property holds on this input (%d attempts)" % o["attempts"]])[0]))
+        return 1 if o["nbad"] else 0
     arg = "%s:%d" % (i["kind"], i["case_seed"]) + (":big" if i.get("big") else "") + (":filter" if i.get("forced") else "")
     if i.get("frames"):
         arg = "frames:%d:%d:%s" % (i["case_seed"], i.get("volume", 2000), i.get("cmd", "udp"))
